@@ -256,8 +256,14 @@ def one_validate(seed, i, res):
                         res["counters"]["messages_written_to_explicit_action"] = res["counters"].get("messages_written_to_explicit_action", 0) + 1
                     elif r_ < 0.55:
                         # written to the captured logger while an action bound to ANOTHER logger object is current
-                        with eliot.start_action(MemoryLogger(), "c14:foreign"):
+                        foreign = MemoryLogger()
+                        n_before = len(logger.messages)
+                        with eliot.start_action(foreign, "c14:foreign"):
                             t(**values).write(logger)
+                        # two MemoryLogger objects alive at once keep their own records
+                        if [m.get("action_type") for m in foreign.messages] != ["c14:foreign", "c14:foreign"] or len(logger.messages) != n_before + 1:
+                            problems.append("two MemoryLoggers alive at once: the other logger holds %r, the captured one grew by %d" % (
+                                [m.get("action_type") or m.get("message_type") for m in foreign.messages], len(logger.messages) - n_before))
                         res["counters"]["messages_written_inside_foreign_action"] = res["counters"].get("messages_written_inside_foreign_action", 0) + 1
                     else:
                         logger.write(dict(values, message_type=mt, task_uuid="u", task_level=[1], timestamp=1.0), t._serializer)
